@@ -63,7 +63,8 @@ def run(tier):
             "rule": "one evaluation = one storage read (bytes compared with the file at the requested position) or one query "
                     "(digest compared with the sequential baseline) decided by TLC; non-trivial = reads that found the shared "
                     "handle locked by another thread (contention actually happened)",
-            "reads": ms, "runs_rejected": len(rej), "tlc_runs": runs, "samples": [], "exhaustive": False, "mc_exhaustive_for_constants": True,
+            "reads": ms, "runs_rejected": len(rej), "tlc_runs": runs,
+            "samples": [{"trace_prefix": [{k: v for k, v in e.items() if k not in ("file", "baseline")} for e in vlib.read_ndjson(trace)[:12]]}], "exhaustive": False, "mc_exhaustive_for_constants": True,
         }
         vlib.write_evidence(PROP, tier, "model_checking", cov, [
             "thread schedules on the real code are sampled (4-6 threads released by a barrier, a yield between seek and read inside "
